@@ -10,7 +10,7 @@ LEVEL = 'exploration'
 NEEDS_SHIM = True
 RULE = ("cases = archive configuration (dir x {dill, fast, compressed, json, source}, sqlite file, file x {pickle, json, source}) x initial contents (0-3 entries) x "
         "2-3 concurrent operations, each in its own forked process on its own freshly opened handle (the open is part of the scheduled operation): writer/writer "
-        "on distinct keys and writer/writer/reader (dir, sqlite), writer(new key)/reader, overwrite/reader, writer/opener (all). Readers: d[k], k in d, len(d), "
+        "on distinct keys and writer/writer/reader (dir, sqlite), writer(new key)/reader, overwrite/reader, writer/opener (all); in a quarter of the cases (dir, file) all processes share one handle opened before the fork. Readers: d[k], k in d, len(d), "
         "list(d), dict(d.items()), cached load(), load(k). The processes run under the libc interposition shim in step mode: each blocks before every file-system "
         "call under the archive root until the harness grants one step, so the harness owns the schedule. Schedules per case: (a) exhaustively, every atomic "
         "placement of each process at each of the other's event boundaries, (b) generated fine-grained interleavings (lists of process indices; fair completion). "
@@ -24,8 +24,9 @@ ASSUMPTIONS = ['interleavings are explored between libc calls under sequentially
                'sqlite busy retries are turned into yield points; a writer that gives up loudly (database is locked) is inconclusive, silent loss is a violation',
                'every schedule is fair and finite (when the generated list is exhausted the remaining processes run round-robin)']
 
-N = {'quick': 12, 'thorough': 3000}
-SHARDS = {'quick': 4, 'thorough': 16}
+N = {'quick': 6, 'thorough': 800}     # per shard, shared by its strata (quick: 2 cases per (config, scenario) stratum, each ~60 schedules)
+SHARDS = {'quick': 13, 'thorough': 16}
+MIN_PER_STRATUM = 2
 TIME_BUDGET = {'quick': 200, 'thorough': 3000}
 DIRLIKE = ['dir_dill', 'dir_fast', 'dir_z', 'dir_json', 'dir_src', 'sql_file']
 FILELIKE = ['file_pkl', 'file_json', 'file_src']
@@ -43,7 +44,7 @@ def small_values(cfg):
 
 
 @st.composite
-def cases(draw, cfg):
+def cases(draw, cfg, scen=None):
     pool = draw(A.key_pools(cfg, n=(3, 5), stable_only=True))
     nk = len(pool)
     vals = draw(st.lists(small_values(cfg), min_size=4, max_size=5, unique_by=repr))
@@ -51,9 +52,11 @@ def cases(draw, cfg):
     ninit = draw(st.integers(0, min(3, nk - 1)))
     init = [[i, draw(st.integers(0, nv - 1))] for i in range(ninit)]
     free = list(range(ninit, nk))
-    scen = draw(st.sampled_from(['ww', 'wr', 'wr', 'or', 'or', 'wo', 'wwr'] if cfg in DIRLIKE else ['wr', 'or', 'or', 'wo', 'wo']))
-    if scen in ('or',) and not ninit:
-        scen = 'wr'
+    scen = scen or draw(st.sampled_from(SCENARIOS[cfg]))
+    if scen == 'or' and not ninit:
+        ninit = 1
+        init = [[0, draw(st.integers(0, nv - 1))]]
+        free = list(range(ninit, nk))
 
     def reader(focus):
         k = draw(st.sampled_from(READS))
@@ -92,26 +95,35 @@ def cases(draw, cfg):
             parts.append(['set', 0, newval(init[0][1])])
         parts.append(reader(a))
     rnd = [draw(st.lists(st.integers(0, len(parts) - 1), min_size=5, max_size=60)) for _ in range(draw(st.integers(2, 6)))]
-    return {'cfg': cfg, 'keys': pool, 'vals': vals, 'init': init, 'parts': parts, 'scen': scen, 'rand': rnd}
+    # the processes may also share ONE handle opened before they were forked (a worker pool); sqlite connections must not cross a fork
+    shared = cfg != 'sql_file' and draw(st.integers(0, 3)) == 0
+    return {'cfg': cfg, 'keys': pool, 'vals': vals, 'init': init, 'parts': parts, 'scen': scen, 'rand': rnd, 'shared': shared}
+
+
+SCENARIOS = dict((c, ['ww', 'wr', 'or', 'wo', 'wwr'] if c in DIRLIKE else ['wr', 'or', 'wo']) for c in CONFIGS)
 
 
 def strata(tier):
-    return [(c, cases(c)) for c in CONFIGS]
+    return [('%s/%s' % (c, sc), cases(c, sc)) for c in CONFIGS for sc in SCENARIOS[c]]
 
 
 # ------------------------------------------------------------ participants
 
-def participant(cfg, root, op, keys, vals):
+def participant(cfg, root, op, keys, vals, shared=None):
     def fn():
         kind = op[0]
         if kind == 'load' or kind == 'loadk':
-            c = A.open_archive(cfg, root, 'A', cached=True)
+            if shared is not None:
+                import klepto.archives as ka
+                c = ka.cache(archive=shared)
+            else:
+                c = A.open_archive(cfg, root, 'A', cached=True)
             if kind == 'load':
                 c.load()
             else:
                 c.load(keys[op[1]])
             return dict(c)
-        a = A.open_archive(cfg, root, 'A')
+        a = shared if shared is not None else A.open_archive(cfg, root, 'A')
         if kind == 'set':
             a[keys[op[1]]] = vals[op[2]]
             return None
@@ -148,7 +160,7 @@ def _run(case, base):
     vals = [V.build(s) for s in case['vals']]
     parts = case['parts']
     opk = '|'.join(p[0] for p in parts)
-    classes = ['cfg:' + cfg, 'scen:' + case['scen']] + ['reader:' + p[0] for p in parts if p[0] in READS]
+    classes = ['cfg:' + cfg, 'scen:' + case['scen']] + ['reader:' + p[0] for p in parts if p[0] in READS] + (['shared_handle'] if case.get('shared') else [])
     I = dict((keys[i], copy.deepcopy(vals[j])) for i, j in case['init'])
     W = {}
     for p in parts:
@@ -171,7 +183,8 @@ def _run(case, base):
         root = os.path.join(base, 'R%d' % counter[0])
         counter[0] += 1
         shutil.copytree(tmpl, root)
-        fns = [participant(cfg, root, p, keys, vals) for p in parts]
+        handle = A.open_archive(cfg, root, 'A') if case.get('shared') else None      # opened before the fork, inherited by every participant
+        fns = [participant(cfg, root, p, keys, vals, handle) for p in parts]
         results, trace = sched.run(fns, root, schedule)
         nts.evals += 1
         final = procs.in_fork(lambda: _final(cfg, root))
@@ -315,7 +328,7 @@ def judge(cfg, case, parts, keys, vals, I, W, results, final, trace, label):
     return None
 
 
-REQUIRED_CLASSES = ['interleaved', 'atomic_placement', 'random_schedule', 'scen:ww', 'scen:wr', 'scen:or', 'scen:wo', 'scen:wwr'] + ['cfg:' + c for c in CONFIGS] + \
+REQUIRED_CLASSES = ['shared_handle', 'interleaved', 'atomic_placement', 'random_schedule', 'scen:ww', 'scen:wr', 'scen:or', 'scen:wo', 'scen:wwr'] + ['cfg:' + c for c in CONFIGS] + \
     ['reader:' + r for r in READS]
 
 
